@@ -48,7 +48,7 @@ func NewOrderedPartition(n, m int, vertexClasses [][]int) *CanonicalOrderedParti
 			for j := range vertexClasses[i] {
 				v := vertexClasses[i][j]
 				order[index] = v
-				inCell[v] = j
+				inCell[v] = i
 				index++
 			}
 			binDividers[i] = index
@@ -98,7 +98,7 @@ func (op *CanonicalOrderedPartition) Reset(n, m int, vertexClasses [][]int) {
 			for j := range vertexClasses[i] {
 				v := vertexClasses[i][j]
 				op.order[index] = v
-				op.inCell[v] = j
+				op.inCell[v] = i
 				index++
 			}
 			op.binDividers[i] = index
